@@ -298,10 +298,9 @@ def all_channels(interact, d, n_eff):
         nm = StubNoiseModel(types, with_leakage=d == 3, **kw)
         with lifted_math(jm):
             got = pa._get_all_lindblad_noise_operators(nm, dim=d, interact_type=interact)
-        want = sum((n_eff if k == "eff_noise" else N_OPS[k]) for k in present)
-        if env.mutant("count_fillers"):
-            want += 1
-        env.check(len(got) == want, f"non-Lindbladian noise names are skipped, one block per channel ({tag})")
+        # (no clause on the number of operators - null operators may be dropped or kept; that the
+        # non-Lindbladian names contribute nothing is part of the dissipator comparison)
+        env.check(all(tuple(o.shape) == (d, d) for o in got), f"every jump operator is a {d}x{d} matrix ({tag})")
         compare_channels(env, got, nm, interact, d, tag)
 
     return fn
@@ -442,7 +441,7 @@ def cases(tier):
                             "dim": d,
                             "noise_types": "every subset of the Lindbladian channels, interleaved with all non-Lindbladian names",
                         },
-                        canaries=["count_fillers", "deph_rate"],
+                        canaries=["deph_rate"],
                         weight=2 * d * d * d,
                         timeout_ms=60000,
                     )
